@@ -408,6 +408,8 @@ def cases_for(tier, s):
             ("table_rtol", {"cli": 1e-3, "pwd": 1e-4, "xdg": 1e-5, "default": 1e-6}), ("table_atol", {"cli": 1e-7, "pwd": 1e-8, "xdg": 1e-10, "default": 1e-9}),
             ("epsilon", {"cli": 1e-10, "pwd": 1e-11, "xdg": 1e-12, "default": 1e-14}), ("verbosity", {"cli": 40, "pwd": 50, "xdg": 35, "default": 30}),
             ("part", {"cli": "diagonal", "pwd": "diagonal", "xdg": "full", "default": "full"}),
+            ("table_atol", {"cli": 0.0, "pwd": 0.2, "xdg": 1e-10, "default": 1e-9}), ("epsilon", {"cli": 0.0, "pwd": 1e-11, "xdg": 1e-12, "default": 1e-14}),
+            ("verbosity", {"cli": 0, "pwd": 50, "xdg": 35, "default": 30}),
             ("sum_factorization", {"cli": True, "pwd": True, "xdg": True, "default": False})]
     for opt, vals in OPTS:
         R.append({"kind": "options", "option": opt, "values": vals})
